@@ -47,8 +47,14 @@ func CompileAllOf(rootSchema *ischema.ISchema) {
 		c.processType(name)
 	}
 
+	// Only what the root schema does not know yet: a parent can have types of
+	// its own registered under names the root schema has as well, and those
+	// objects were not compiled here (an heir among them has no inherited
+	// members yet).
 	for n, t := range c.foundTypes {
-		rootSchema.AddType(n, t)
+		if _, ok := rootSchema.TypesList()[n]; !ok {
+			rootSchema.AddType(n, t)
+		}
 	}
 }
 
